@@ -350,6 +350,34 @@ func (g *qGen) selections(t *TypeSpec, depth int, top bool) []string {
 			}
 		}
 	}
+	if g.k.Depth >= 4 && depth == g.k.Depth-3 && depth >= 1 && t.Kind != "ROOT" && g.pct(60) {
+		// two sibling object fields three keys down, each holding every scalar of its type: when
+		// they cross services both are join points whose paths share a four-key prefix
+		var objs []*FieldSpec
+		for _, fl2 := range g.fieldsOf(t) {
+			if !scalarNames[fl2.Type.Named] {
+				objs = append(objs, fl2)
+			}
+		}
+		if len(objs) > 0 {
+			g.feats["deep-siblings"]++
+			fl2 := objs[g.r.Intn(len(objs))]
+			tt := g.f.Type(fl2.Type.Named)
+			for _, pre := range []string{"dsa", "dsb"} {
+				parts := []string{}
+				for _, sf := range g.fieldsOf(tt) {
+					if scalarNames[sf.Type.Named] && sf.Name != "id" {
+						parts = append(parts, sf.Name+g.args(sf))
+					}
+				}
+				if len(parts) == 0 {
+					parts = []string{"id"}
+				}
+				g.nalias++
+				out = append(out, fmt.Sprintf("%s%d: %s%s { %s }", pre, g.nalias, fl2.Name, g.args(fl2), strings.Join(parts, " ")))
+			}
+		}
+	}
 	if g.k.Typename && g.pct(15) {
 		g.feats["typename"]++
 		out = append(out, "__typename")
